@@ -70,6 +70,7 @@ import (
 	"github.com/tochemey/goakt/v4/internal/ticker"
 	"github.com/tochemey/goakt/v4/internal/types"
 	"github.com/tochemey/goakt/v4/internal/validation"
+	"github.com/tochemey/goakt/v4/internal/verifhook"
 	"github.com/tochemey/goakt/v4/internal/xsync"
 	"github.com/tochemey/goakt/v4/log"
 	"github.com/tochemey/goakt/v4/memory"
@@ -2580,6 +2581,7 @@ func (x *actorSystem) completeSpawn(ctx context.Context, parent, pid *PID) (*PID
 // transaction, which must attach its controller without re-entering the
 // endpoint logic above.
 func (x *actorSystem) attachAndPublish(ctx context.Context, parent, pid *PID) (*PID, error) {
+	verifhook.At("spawn.attach", pid, 0, 0)
 	if !pid.isStateSet(systemState) {
 		x.increaseActorsCounter()
 	}
